@@ -88,7 +88,7 @@ let handle toks =
     let step = z_of_string step and move = str_of_hex move and home = str_of_hex home and pn = z_of_string pn in
     let keep = List.map str_of_hex (split_list ',' keep) in
     let arch = archive_dir home pn in
-    let mv = move_list (write_txt d arch step move p) (accepted_dir arch) keep p in
+    let mv = move_list (write_txt (clean_dir store_keeps_own (accepted_dir arch) p d) arch step move p) (accepted_dir arch) keep p in
     (match store d step move home pn keep p with
      | None -> "FAIL " ^ string_of_moves mv
      | Some (d4, cfgs) ->
@@ -96,6 +96,7 @@ let handle toks =
        let got = load d4 arch in
        String.concat " " ["OK"; string_of_disk d4; string_of_cfgs cfgs; string_of_moves mv;
                           string_of_lpath got; (if got = Some expect then "1" else "0")])
+  | ["variant"] -> string_of_bool_ store_keeps_own
   (* load disk pdir *)
   | ["load"; disk; pdir] -> string_of_lpath (load (disk_of_string disk) (str_of_hex pdir))
   | ["names"; s] ->
